@@ -55,7 +55,11 @@ var stat = map[string]int{}
 func tinyG1(g *gen.G) bn254.G1Affine {
 	for {
 		var p bn254.G1Affine
-		p.X.SetUint64(uint64(1 + g.Intn(60)))
+		x := uint64(1 + g.Intn(60))
+		if g.Chance(1, 4) {
+			x = 1 // (1, 2) and its negation (1, p-2): a coordinate just below the base-field modulus
+		}
+		p.X.SetUint64(x)
 		var rhs, three fp.Element
 		three.SetUint64(3)
 		rhs.Square(&p.X).Mul(&rhs, &p.X).Add(&rhs, &three)
